@@ -9,6 +9,9 @@
 (***************************************************************************)
 EXTENDS Formatter, ExprParens, Json, IOUtils, TLCExt
 
+Lay == INSTANCE Layout
+Blk == INSTANCE Block
+
 Rec == ndJsonDeserialize(IOEnv.TRACE)
 
 VARIABLE l
@@ -16,7 +19,7 @@ tvars == <<l, pc, doc, fmt, rep, ref>>
 
 IsEvent(e) == l <= Len(Rec) /\ Rec[l].ev = e /\ l' = l + 1
 
-V(prop, what) == [p |-> prop, w |-> what]
+V(prop, what) == [p |-> prop, w |-> what, i |-> 0]
 
 (* verdicts of one event; `d` is the rendered document of the case *)
 FormatFails(d, f) ==
@@ -25,7 +28,16 @@ FormatFails(d, f) ==
                                   ELSE "cpu")} ELSE {}) \cup
   (IF f.outcome = "ok" /\ f.in_parse = "ok"
    THEN (IF ~TokensKept(f) THEN {V("C02", "tokens"), V("C03", "tokens")} ELSE {}) \cup
-        (IF ~CensusKept(f) THEN {V("C03", "census")} ELSE {})
+        (IF ~CensusKept(f) THEN {V("C03", "census")} ELSE {}) \cup
+        (IF Has(f, "stmts") /\ Has(f.stmts, "recs") /\ ~f.stmts.sort_on
+         THEN Blk!IgnoreFails(f.stmts.recs) \cup
+              (IF Has(f.stmts, "range")
+               THEN Blk!RangeFails(f.stmts.recs, f.stmts.range, f.stmts.affix, f.identity)
+               ELSE {})
+         ELSE {}) \cup
+        (IF Has(f, "lines")
+         THEN {V("C10", w) : w \in Lay!WhitespaceFails(f.lines, f.cfg, ~Has(d, "range"))}
+         ELSE {})
    ELSE {})
 
 GenExpr(d) == Has(d, "meta") /\ Has(d.meta, "src") /\ d.meta.src = "ExprParens"
